@@ -11,6 +11,12 @@ def herm(r, d, traceless=False):
     A = (A + A.conj().T) / 2
     if traceless:
         A = A - np.trace(A).real / d * np.eye(d)
+        # make the trace vanish exactly (the running float sum of the first d-1 diagonal entries, negated), so that
+        # the normalised element stays within the package's traceless tolerance eps*d**2 whatever the draw
+        acc = 0.0
+        for i in range(d - 1):
+            acc = acc + A[i, i].real
+        A[d - 1, d - 1] = -acc
     return A
 
 
@@ -29,15 +35,24 @@ def make_basis(r, d, kind):
             return ff.Basis.ggm(d)
         return ff.Basis.pauli(n)
     if kind == 'partial':          # completed from a random traceless partial set
-        k = int(r.integers(1, max(2, d)))
-        els = [herm(r, d, traceless=True)]
-        # orthogonalise a few more (Gram-Schmidt in HS inner product)
-        for _ in range(k - 1):
-            A = herm(r, d, traceless=True)
-            for E in els:
-                A = A - np.trace(E.conj().T @ A) / np.trace(E.conj().T @ E) * E
-            els.append(A)
-        return ff.Basis.from_partial(els, traceless=True)
+        # rounding can leave a trace just above the package's tolerance (eps*d**2) or an overlap just above its
+        # orthonormality tolerance: such a draw is outside the documented domain of from_partial, so draw again
+        # (the draws come from the same seeded generator, so the run stays reproducible)
+        for _attempt in range(50):
+            k = int(r.integers(1, max(2, d)))
+            els = [herm(r, d, traceless=True)]
+            # orthogonalise a few more (Gram-Schmidt in HS inner product)
+            for _ in range(k - 1):
+                A = herm(r, d, traceless=True)
+                for E in els:
+                    A = A - np.trace(E.conj().T @ A) / np.trace(E.conj().T @ E) * E
+                els.append(A)
+            els = [E - np.trace(E).real / d * np.eye(d) for E in els]
+            try:
+                return ff.Basis.from_partial(els, traceless=True)
+            except ValueError:
+                continue
+        return ff.Basis.ggm(d)
     if kind == 'nontraceless':     # complete ONB whose elements are not traceless
         A = herm(r, d)
         return ff.Basis.from_partial([A], traceless=False)
